@@ -281,7 +281,7 @@ def argStep (acc : Option (List (Bytes × Bytes))) (arg : Bytes) : Option (List 
   | none => none
   | some m =>
     match splitByte arg 61 with
-    | [k, v] => some (insertArg m (toUpper k) v)
+    | [k, v] => if v.isEmpty then none else some (insertArg m (toUpper k) v)
     | [k] => some (insertArg m (toUpper k) [])
     | _ => none
 
@@ -304,7 +304,7 @@ theorem argStep_param (m : List (Bytes × Bytes)) (p : Bytes × Bytes) (hp : Par
     subst this
     simp only [if_true, splitByte_noSep k 61 hk, toUpper_key k hp.keyb, insertArg_new m k [] hnew]
   | false =>
-    simp only [Bool.false_eq_true, if_false, splitByte_two k v 61 hk hv, toUpper_key k hp.keyb, insertArg_new m k v hnew]
+    simp only [Bool.false_eq_true, if_false, splitByte_two k v 61 hk hv, hve, toUpper_key k hp.keyb, insertArg_new m k v hnew]
 
 theorem foldl_params (ps : List (Bytes × Bytes)) (hps : ∀ p ∈ ps, ParamOk p) (hnd : (ps.map (·.1)).Nodup) :
     ∀ (m : List (Bytes × Bytes)), (∀ q ∈ m, ∀ p ∈ ps, q.1 ≠ p.1) →
